@@ -661,14 +661,13 @@ fn run_case(line: &str) -> String {
 /// Which inner nodes hold a non-identity pending tag — bookkeeping for the evidence only: counts how many
 /// operations pushed such a tag on their way down (the real tree is not inspected, no hook needed).
 struct Tags {
-    n: usize,
     tag: Vec<bool>,
     crossed: u64,
 }
 
 impl Tags {
     fn new(n: usize) -> Self {
-        Tags { n, tag: vec![false; 4 * n.max(1) + 4], crossed: 0 }
+        Tags { tag: vec![false; 4 * n.max(1) + 4], crossed: 0 }
     }
     fn push(&mut self, i: usize, vl: usize, vr: usize) {
         if self.tag[i] {
@@ -986,14 +985,20 @@ fn gen(args: &Args, emit: &mut dyn FnMut(String), st: &mut Stats) {
                 exhaustive(&init(n), &full, len, emit, st, "exhaustive_small_scope_histories");
             }
         }
-        // longer histories over a reduced alphabet
+        // longer histories over a reduced alphabet (with the searches when the focus is C02)
         let n3 = alphabet(item, 3, searches);
         exhaustive(&init(3), &n3, if thorough { 4 } else { 3 }, emit, st, "exhaustive_small_scope_histories");
         let n2 = alphabet(item, 2, searches);
-        exhaustive(&init(2), &n2, if thorough { 5 } else { 4 }, emit, st, "exhaustive_small_scope_histories");
+        let len2 = match (thorough, searches) {
+            (true, false) => 5,
+            (true, true) | (false, false) => 4,
+            (false, true) => 3,
+        };
+        exhaustive(&init(2), &n2, len2, emit, st, "exhaustive_small_scope_histories");
     }
     // (2) random structured histories
-    let count = if thorough { 150_000 } else { 3_500 };
+    // searches are the expensive part of the Lean side (the specification tries every candidate index afresh)
+    let count = if thorough { if focus == "C02" { 120_000 } else { 200_000 } } else if focus == "C02" { 3_000 } else { 3_500 };
     for c in 0..count {
         // the lazy and the non-commutative items get more weight
         let item = match rng.below(16) {
